@@ -245,7 +245,8 @@ func runListen(n, A, K, mode int, s uint64, stats map[string]int) ([]event, [][2
 	select {
 	case <-done:
 	case <-time.After(20 * time.Second):
-		return nil, [][2]string{{"hang", "listener scenario did not finish within 20 s (a semaphore slot was not released, or Accept blocked after Close)"}}
+		// every goroutine still alive is blocked: what was recorded so far is still reported
+		fails.add("hang", "listener scenario did not finish within 20 s (a semaphore slot was not released, or Accept blocked after Close)")
 	}
 	all := append([]event{}, inner.rec.evs...)
 	for i, r := range recs {
